@@ -324,6 +324,18 @@ def handle (j : Json) : Json :=
           ("scores", toJson (matToBits M.scores)), ("expvar", toJson (vecToBits M.expvar)), ("total", floatToBits M.total)]
       else Json.mkObj [("status", "ValueError")]
     else Json.mkObj [("status", "ValueError")]
+  | "opa" =>
+    -- OPA after its PCA step: scaled PCs S (n×q), scaled EOFs C (p×q); oracles Cinv (q×q), eigenvectors Ue (q×k), eigenvalues
+    let n := getNat j "n"; let p := getNat j "p"; let q := getNat j "q"; let k := getNat j "k"; let tauMax := getNat j "tau_max"
+    let S := matOfBits n q (getStrArr j "S"); let C := matOfBits p q (getStrArr j "C")
+    let Cinv := matOfBits q q (getStrArr j "Cinv"); let Ue := matOfBits q k (getStrArr j "Ue")
+    let lA := (getStrArr j "lam").map bitsToFloat
+    let lam : Fin k → Float := fun i => lA[i.val]!
+    let F : OpaFit n p q k Float Float := opaFit S C tauMax Cinv Ue lam
+    let C0 : Mat q q Float := lagCov (ρ := Float) S 0
+    Json.mkObj [("status", "ok"), ("C0", toJson (matToBits C0)), ("target", toJson (matToBits F.target)),
+      ("filter", toJson (matToBits F.filter)), ("comps", toJson (matToBits F.comps)), ("scores", toJson (matToBits F.scores)),
+      ("norms", toJson (vecToBits F.norms)), ("decorr", toJson (vecToBits F.decorr))]
   | "scaler" =>
     let f : ScalerFlags := ⟨getBool j "with_center", getBool j "with_std", getBool j "with_coslat"⟩
     let P : ScalerParams Float := ⟨bitsToFloat (getStr j "mean"), bitsToFloat (getStr j "std"), bitsToFloat (getStr j "coslat"), bitsToFloat (getStr j "weights")⟩
